@@ -28,7 +28,40 @@ METHODS = {
 POSITIVE_BASE = {"__pow__", "__rpow__", "log"}
 
 
+def clause_point(repo, chk):
+    """the finite-difference Hessian is expanded around the requested point (round-3 seed)"""
+    import ast
+
+    from ..model import norm_text
+    from ..mustpass import must_pass
+    APP = "tf_pwa/applications.py"
+    chk.rule("H-point", "num_hess_inv_3point(fcn, params): the expansion point x0 = fcn.vm.get_all_val(..) is read, on every path, after the call fcn(params) that writes the requested point into the model (CFG must-pass)")
+    fn = repo.fn_opt(APP + "::num_hess_inv_3point")
+    if fn is None:
+        raise AnalysisError("anchor vanished: %s::num_hess_inv_3point" % APP)
+    pf, pp = fn.params[0], fn.params[1]
+
+    def is_event(node, sc):
+        return any(isinstance(x, ast.Call) and isinstance(x.func, ast.Name) and x.func.id == pf and x.args and isinstance(x.args[0], ast.Name) and x.args[0].id == pp for x in ast.walk(sc)) or \
+            any(isinstance(x, ast.Call) and isinstance(x.func, ast.Attribute) and x.func.attr in ("set_params", "set_all") and any(isinstance(a, ast.Name) and a.id == pp for a in x.args) for x in ast.walk(sc))
+
+    def is_sink(node, sc):
+        return any(isinstance(x, ast.Call) and isinstance(x.func, ast.Attribute) and x.func.attr in ("get_all_val", "get_all_dic") for x in ast.walk(sc))
+
+    cfg, n_sinks, bad = must_pass(fn.node, is_event, is_sink)
+    if n_sinks < 1:
+        raise AnalysisError("num_hess_inv_3point: no read of the expansion point (get_all_val) found")
+    chk.oblige("H-point", "num_hess_inv_3point: %d read(s) of the expansion point, all after `%s(%s)`" % (n_sinks, pf, pp), not bad)
+    for node, path in bad[:2]:
+        chk.violation("H-point", fn.key, "stale-point", "the expansion point is read (line %s) before `%s(%s)` writes the requested point into the model: Hessian and bound transform are evaluated around the model's previous values, the errors belong to another point" % (node.lineno, pf, pp), file=APP, line=node.lineno)
+
+
 def run(repo, chk, tier):
+    clause_point(repo, chk)
+    from .c07 import check_sumvar, check_sumvar_call
+
+    check_sumvar(repo, chk)
+    check_sumvar_call(repo, chk)
     chk.rule("E6-err", "NumberError operator rules: err^2 == sum (d val/d x_i)^2 err_i^2 (exact identity) and err >= 0 on the whole domain")
     chk.rule("E3-quad", "derived-quantity errors are sqrt(g . V . g) with one gradient and the matrix passed in; hesse errors are sqrt(|diag(inv H)|)")
     chk.assume("domain: values real (bases of powers / arguments of log positive), input errors positive; scalars real and non-zero")
